@@ -16,7 +16,7 @@ RULE = ("condition menu of 8 {static PINN with laplacian, weighted boundary cond
         "recorded after every step x validation {none, data, static PINN} x val interval {1,2}; distinct by configuration")
 ASSUMPTIONS = ["reference loop in tpmc/props/train_common.py: L = sum_i w_i c_i(iteration=step); zero_grad; backward; step; scheduler every f steps",
                "single device CPU, no precision plugins, first-order optimizers"]
-BOUNDS = {"quick": {"N": 4, "triple_stride": 4}, "thorough": {"N": 6, "triple_stride": 1}}
+BOUNDS = {"quick": {"N": 4, "triple_stride": 4}, "thorough": {"N": 8, "triple_stride": 1}}
 ITEM_LIMIT = {"quick": 1200, "thorough": 3600}
 WEIGHTS = [(1.0, 1.0, 1.0), (0.5, 2.0, 1.0)]
 
